@@ -575,7 +575,7 @@ fn history_case(which: u64, ctx: &mut Ctx) {
 		}
 	}
 }
-const HISTORIES: [&str; 7] = [
+const HISTORIES: [&str; 8] = [
 	"id of a listener that was dropped and removed before the track was created",
 	"id of a removed listener while a new listener occupies the arena",
 	"listener dropped before its first callback",
@@ -583,6 +583,7 @@ const HISTORIES: [&str; 7] = [
 	"listener dropped mid-run",
 	"another listener dropped mid-run",
 	"track created before the listener's first callback",
+	"several of three listeners dropped between the same two callbacks",
 ];
 fn history(which: u64, sc: &Scene, ctx: &mut Ctx) {
 	let name = HISTORIES[which as usize];
@@ -673,12 +674,62 @@ fn history(which: u64, sc: &Scene, ctx: &mut Ctx) {
 				}
 			}
 		}
-		_ => {
+		6 => {
 			let l = m.add_listener(mv(sc.lpos), mq(sc.lq)).expect("listener");
 			let _t = add_track(&mut m, l.id());
 			pump(&mut m, 2, &mut out).unwrap();
 			expect_ref(ctx, &out, "track and listener adopted in the same callback");
 			drop(l);
+		}
+		_ => {
+			// every non-empty subset of three listeners (each heard by its own track, same pose) dropped in one interval:
+			// from the next callback on exactly the tracks of the live listeners are heard, and the dropped ones' slots come back
+			for mask in 1u32..8 {
+				for settle in [1usize, 2] {
+					let mut m = mgr();
+					let mut ls: Vec<Option<kira::listener::ListenerHandle>> = (0..3).map(|_| Some(m.add_listener(mv(sc.lpos), mq(sc.lq)).expect("listener"))).collect();
+					let ts: Vec<_> = ls.iter().map(|l| add_track(&mut m, l.as_ref().unwrap().id())).collect();
+					let mut out = vec![];
+					pump(&mut m, settle, &mut out).unwrap();
+					out.clear();
+					// drop order: highest index first and lowest index first are both histories of the same interval
+					for i in 0..3 {
+						if mask & (1 << i) != 0 {
+							ls[i] = None;
+						}
+					}
+					pump(&mut m, 3, &mut out).unwrap();
+					let live = 3 - mask.count_ones() as usize;
+					if let Some(r) = reference {
+						let want = (r.0 * live as f64, r.1 * live as f64);
+						if let Some(i) = out.iter().position(|f| (f.0 as f64 - want.0).abs() > 1e-6 || (f.1 as f64 - want.1).abs() > 1e-6) {
+							ctx.fail(
+								format!("no listener: track audible :: {}", name),
+								format!("history: {}; listeners dropped (bit mask) {:03b} after {} callback(s); {} -> frame {} (callback {} after the drop) = {:?}, expected {} x the plain rendering {:?} = {:?}; frames {:?}", name, mask, settle, sc.desc(), i, i / IBS, out[i], live, r, want, out),
+							);
+							break;
+						} else if want != (0.0, 0.0) {
+							ctx.nontrivial_extra += 1;
+						}
+					}
+					// the arena holds 4 listeners: after the removal (1 + dropped) new ones fit
+					let mut fresh = vec![];
+					for k in 0..(1 + mask.count_ones() as usize) {
+						match m.add_listener(mv(sc.lpos), mq(sc.lq)) {
+							Ok(l) => fresh.push(l),
+							Err(e) => {
+								ctx.fail(
+									format!("the slot of a dropped listener is not free again after the callbacks that removed it :: {}", name),
+									format!("history: {}; listeners dropped (bit mask) {:03b}; 3 callbacks later add_listener #{} fails: {:?}", name, mask, k + 1, e),
+								);
+								break;
+							}
+						}
+					}
+					ctx.transitions += 4;
+					drop((ts, fresh));
+				}
+			}
 		}
 	}
 	ctx.transitions += 4;
@@ -1157,6 +1208,77 @@ fn tween_one(which: usize, t: &TweenScene, ms: &[Motion], ctx: &mut Ctx) {
 	}
 }
 
+/// listener and emitter translated together (two tweens of the same duration issued in the same interval): the level
+/// never moves, whatever the device callback sizes are
+fn joint_case(tier: Tier, ctx: &mut Ctx) {
+	let pts: Vec<V3> = vec![[0.0; 3], [1.0, 0.0, 0.0], [-3.0, 0.0, -1.0], [0.0, 3.0, 3.0], [3.0, -3.0, 1.0]];
+	let os: Vec<Q> = orientations(Tier::Quick).iter().map(|o| o.1).collect();
+	let shifts: Vec<V3> = vec![[4.0, 0.0, 0.0], [0.0, -6.0, 3.0], [-8.0, 8.0, -8.0]];
+	let durations: Vec<u64> = tier.pick(vec![6, 9], vec![1, 6, 9, 16]);
+	let patterns: Vec<Vec<usize>> = tier.pick(vec![vec![IBS], vec![3], vec![5, 1, 2]], vec![vec![IBS], vec![3], vec![5, 1, 2], vec![1], vec![7], vec![2, 9]]);
+	const LFIX: V3 = [1.0, 0.0, -3.0];
+	for curve in [None, Some(Easing::Linear), Some(Easing::InPowi(2))] {
+		for s in [0.0f32, 0.75, 1.0] {
+			let sp = Sp { range: (0.0, 10.0), curve, s };
+			for &epos in &pts {
+				for &lq in &os {
+					for &d in &shifts {
+						for &frames in &durations {
+							for pat in &patterns {
+								let sc = Scene { lpos: LFIX, lq, epos, sp };
+								ctx.evals += 1;
+								ctx.traces += 1;
+								let what = format!("listener and emitter both moved by {:?} with linear tweens of {} frames issued in the same interval after the first callback; device callbacks of {:?} frames (repeating); start scene {}", d, frames, pat, sc.desc());
+								let r = catch(|| -> Result<Vec<(f32, f32)>, String> {
+									let mut m = mgr();
+									let mut l = m.add_listener(mv(sc.lpos), mq(sc.lq)).expect("listener");
+									let mut tr = m.add_spatial_sub_track(&l, mv(sc.epos), sp_builder(sc.sp)).expect("track");
+									tr.play(input()).expect("play");
+									let mut out = vec![];
+									pump(&mut m, 1, &mut out)?;
+									let tw = tween_frames(frames);
+									l.set_position(mv(add(sc.lpos, d)), tw);
+									tr.set_position(mv(add(sc.epos, d)), tw);
+									let mut k = 0;
+									while out.len() < IBS + frames as usize + 2 * IBS {
+										let rep = rig::render_stereo(&mut m, pat[k % pat.len()], &mut out);
+										if let Some(p) = rep.panic {
+											return Err(p);
+										}
+										k += 1;
+									}
+									Ok(out)
+								})
+								.and_then(|r| r);
+								let out = match r {
+									Ok(o) => o,
+									Err(p) => {
+										ctx.fail(format!("panic: {} :: joint translation", p), what);
+										continue;
+									}
+								};
+								ctx.transitions += out.len() as u64;
+								let want = out[IBS - 1];
+								let ulp = maxabs(&[add(sc.lpos, d), add(sc.epos, d)]) * 2f64.powi(-23);
+								let tol = sc.tol(4.0 * ulp, 4.0 * ulp) + 2e-6;
+								if let Some(i) = out.iter().position(|f| (f.0 - want.0).abs() as f64 > tol || (f.1 - want.1).abs() as f64 > tol || !f.0.is_finite() || !f.1.is_finite()) {
+									ctx.fail(
+										"a common rigid motion of listener and emitter changes the output during a tween :: listener and emitter translated together".to_string(),
+										format!("{} -> frame {} = {:?}, level at rest {:?} (tolerance {:e}); frames {:?}", what, i, out[i], want, tol, out),
+									);
+								} else if want != (0.0, 0.0) {
+									ctx.nontrivial_extra += 1;
+								}
+								ctx.outcome(hash64(&((want.0 * 4096.0).round() as i32, (want.1 * 4096.0).round() as i32, frames, pat.len())));
+							}
+						}
+					}
+				}
+			}
+		}
+	}
+}
+
 /// the direction from an ear to the emitter degenerates when the emitter sits exactly on that ear
 fn ear_positions_case(tier: Tier, ctx: &mut Ctx) {
 	for lpos in listener_positions(tier) {
@@ -1203,6 +1325,7 @@ enum Case {
 	Param(usize),
 	Nesting(u64),
 	Tween(usize),
+	Joint,
 	/// the emitter exactly at (and a hair next to) one of the listener's ear positions
 	EarPositions,
 }
@@ -1222,6 +1345,7 @@ fn cases(tier: Tier) -> Vec<Case> {
 	v.extend((0..NESTINGS.len() as u64).map(Case::Nesting));
 	v.extend((0..TWEENS.len()).map(Case::Tween));
 	v.push(Case::EarPositions);
+	v.push(Case::Joint);
 	v
 }
 
@@ -1248,6 +1372,7 @@ impl Check for C15 {
 			Case::Param(p) => format!("listener-distance mapping {} x 2 easings x 3 listener x 6 emitter positions x 3 moves", PLACEMENTS[p]),
 			Case::Nesting(n) => format!("nesting: {} x emitter lattice x 9 track settings x 3 orientations", NESTINGS[n as usize]),
 			Case::Tween(t) => format!("tween of {} x start/target lattice x 9 track settings x durations x rigid motions", TWEENS[t]),
+			Case::Joint => "listener and emitter translated together by two tweens of the same duration x 5 emitters x orientations x 3 shifts x durations x 9 track settings x device callback patterns (multiples and non-multiples of the internal buffer): the level never moves".into(),
 			Case::EarPositions => "emitter exactly at / a hair next to an ear position (listener +- 0.1 along its right axis) x listener positions x orientations x strengths x curves: finite, ear gains in [1 - s, 1], the emitter's side not quieter".into(),
 		}
 	}
@@ -1289,6 +1414,7 @@ impl Check for C15 {
 			Case::Nesting(n) => nesting_case(tier, n, ctx),
 			Case::Tween(t) => tween_case(tier, t, ctx),
 			Case::EarPositions => ear_positions_case(tier, ctx),
+			Case::Joint => joint_case(tier, ctx),
 		});
 		if let Err(p) = r {
 			ctx.fail(format!("panic: {} :: {:?}", p, case), self.describe(tier, idx));
